@@ -324,6 +324,7 @@ func (c *conn) closeChannels() {
 		ch.free()
 		return true
 	})
+	vtr("cl.done", bin.Bin128{}, 0, 0)
 }
 
 func (c *conn) createChannel() (Channel, bool, status.Status) {
